@@ -485,6 +485,17 @@ def run_pipeline(spec):
                    "args": conc_ctx.get("args")}
             hist["conc_calls"].append(rec)
 
+        orig_writer = prun.create_main_run_output
+
+        def w_writer(cluster_file_, out_file_, results_):
+            # what the run hands to the trace writer, whatever the file format is
+            try:
+                hist["results_handed_to_writer"] = pickle.loads(pickle.dumps(results_, protocol=pickle.HIGHEST_PROTOCOL))
+            except Exception as e:
+                hist["results_error"] = repr(e)
+            return orig_writer(cluster_file_, out_file_, results_)
+
+        P.set(prun, "create_main_run_output", w_writer)
         P.set(prun, "_run_burnin", w_burn)
         P.set(prun, "_run_main_sampler", w_main)
         P.set(prun, "clear_proposal_dist_caches", w_clear)
@@ -534,10 +545,17 @@ def run_pipeline(spec):
         hist["clock_reads"] = [c.reads for c in clock_holder.get("clocks", [])]
         hist["sim_time"] = float(sum(max(0.0, c.T) for c in clock_holder.get("clocks", [])))
         if hist["image"] is not None and hist["exception"] is None:
-            try:
-                hist["results"] = load_results(hist["image"])
-            except Exception as e:
-                hist["results_error"] = repr(e)
+            hist["results"] = hist.get("results_handed_to_writer")
+            if hist["results"] is not None and cluster_file and all("clusters" not in v for v in hist["results"].values()):
+                # the shipped writer adds the cluster table to every chain before dumping; mirror it for the trace model
+                try:
+                    import pandas as pd
+
+                    cl = pd.read_csv(cluster_file, sep="\t")[["mutation_id", "cluster_id"]].drop_duplicates()
+                    for v in hist["results"].values():
+                        v["clusters"] = cl
+                except Exception as e:
+                    hist["results_error"] = repr(e)
     finally:
         P.undo()
         shutil.rmtree(d, ignore_errors=True)
